@@ -112,6 +112,8 @@ TEMPLATES = {
     "t_blockset_attr_rows": "{% for r in rows %}{% set r.x %}{{ loop.index }}{% endset %}{% endfor %}{{ rows }}",
     "t_set_attr_rows": "{% for r in rows %}{% set r.x = 1 %}{% endfor %}{{ rows }}",
     "t_blockset_attr_ns": "{% set ns = namespace(n='') %}{% for i in b %}{% set ns.n %}{{ ns.n }}{{ i }}{% endset %}{% endfor %}{{ ns.n }}{% set ns.f | upper %}x{% endset %}{{ ns.f }}",
+    "t_rebind_then_attr": "{% set ns = namespace() %}{% set ns, ns.x = c, 1 %}{{ c }}",
+    "t_rebind_then_attr_global": "{% set ns = namespace() %}{% for i in b %}{% set ns, ns.x = glist_holder, 1 %}{% endfor %}{{ glist_holder }}",
     "t_cycler": "{% set cy = cycler('x', 'y') %}{% for i in b %}{{ cy.next() }}{% endfor %}{% set j = joiner(',') %}{% for i in b %}{{ j() }}{{ i }}{% endfor %}",
 }
 # the only template of the family with state that is DESIGNED to persist in a cross-render cache (F20)
@@ -133,6 +135,7 @@ def make_env(is_async=False, extra=None):
     env.install_null_translations()
     env.globals["g"] = "G"
     env.globals["glist"] = [1, 2]
+    env.globals["glist_holder"] = {"k": [1]}
     return env
 
 
@@ -1064,6 +1067,8 @@ def scan_generated_family():
             try:
                 code = e.compile(src, name=name, raw=True)
                 tree = ast.parse(code)
+            except jinja2.TemplateSyntaxError:
+                continue  # rejected at compile time (e.g. a name and an attribute of it in one set target): no code to scan
             except Exception as ex:
                 problems.append(f"{name}: {type(ex).__name__}: {ex}")
                 continue
@@ -1166,7 +1171,7 @@ def emitted_tasks():
     tt.bound_text = "template with 1 block and 1 imported name (body abstract)"
     ts.append(tt)
     ts += c03.store_guard_tasks(prop="C29", prefix="C29.frame.emitted.item_store_guarded")
-    for t_ in ts[-14:]:
+    for t_ in ts[-2 * len(c03.TARGET_SHAPES):]:
         t_.replay_fn = replay_emitted
     ts.append(FnTask("C29", "C29.frame.emitted.helpers", helper_emission, "emission", replay_emitted))
     ts.append(Bounded("C29", "C29.frame.emitted.generated_family", generated_family, "bounded", replay_emitted))
